@@ -26,6 +26,12 @@ fn replay(prop: &str) -> fn(&str, &Value) -> Result<(), String> {
 }
 
 fn main() {
+    // SQLite's allocator keeps global memory statistics behind one process-wide mutex; with sixteen
+    // workers on in-memory databases that mutex dominates. The statistics are not used here.
+    // Must happen before the first connection is opened.
+    unsafe {
+        rusqlite::ffi::sqlite3_config(rusqlite::ffi::SQLITE_CONFIG_MEMSTATUS, 0);
+    }
     let args = Args::parse();
     if args.prop == "PROFILE" {
         use std::time::Instant;
@@ -61,6 +67,22 @@ fn main() {
             let t_dig = t.elapsed();
             eprintln!("{op:?}: snap {t_snap:?} restore {t_rest:?} apply {t_apply:?} canon {t_canon:?} ({} bytes) check {t_check:?} ok={} digest {t_dig:?} {}", k.len(), c.is_ok(), &d[..8]);
         }
+        return;
+    }
+    if args.prop == "PROFILE2" {
+        let (u, _cfg) = c01::setup("tiny", 9, 1, 1e9);
+        let mut w = db::new_wallet(&u, 4, false);
+        let snap = db::snapshot(w.db.conn());
+        let m = graph::Model::default();
+        let f = universes::FIRST;
+        let n: usize = std::env::var("VERIF_N").ok().and_then(|s| s.parse().ok()).unwrap_or(5);
+        let t = std::time::Instant::now();
+        for _ in 0..n {
+            db::restore(w.db.conn_mut(), &snap);
+            w.refresh_accounts();
+            let _ = graph::apply(&mut w, &u, &m, &graph::Op::Scan { from: f, to: f }).unwrap();
+        }
+        eprintln!("{n} x (restore + scan of one block): {:?}", t.elapsed());
         return;
     }
     if args.prop == "SCHEMA" {
